@@ -20,6 +20,23 @@ func init() {
 	vfRegister("VfRIB_tOrder", VfRIB_tOrder)
 	vfRegister("VfRIB_qEnum", VfRIB_qEnum)
 	vfRegister("VfRIB_t3e", VfRIB_t3e)
+	vfRegister("VfRIB_qPayload", VfRIB_qPayload)
+	vfRegister("VfRIB_qPayloadTop", VfRIB_qPayloadTop)
+}
+
+// qPayload: next-hop operations carrying the extended payload (address, MAC, interface reference,
+// IP-in-IP, pushed label stack: 13 shapes incl. schema-invalid strings, any 64-bit label / subinterface
+// number) against a pre-state with one optional next-hop (valid payload of any shape) and one optional
+// group: invalid content is malformed (C12), valid content is payload (C01: installed = last acknowledged,
+// an ADD over an installed next-hop replaces the WHOLE payload).
+func VfRIB_qPayload() {
+	vfRIBRun(vfRunCfg{pre: vfPreCfg{nNH: 1, nNHG: 1, members: 1}, fixLow: true, payload: true, steps: 1, members: 1, kinds: []int{vfKNH}})
+}
+
+// qPayloadTop: IPv4 / IPv6 / label entries with a decapsulate-header or a popped label stack (any 64-bit
+// labels) over a pre-state of 1 next-hop, 1 group, 1 such entry.
+func VfRIB_qPayloadTop() {
+	vfRIBRun(vfRunCfg{pre: vfPreCfg{nNH: 1, nNHG: 1, nTop: 1, members: 1, topKinds: vfTopAll}, fixLow: true, payload: true, lean: true, steps: 1, members: 1, kinds: vfTopAll})
 }
 
 // t3e: every history of THREE symbolic operations from the empty RIB (next-hop, group, IPv4 entry).
